@@ -231,6 +231,7 @@ def gen_flag_harness(item, d, hname):
     L.append("    let x: %s = kani::any();" % B)
     L.append("    let y: %s = kani::any();" % B)
     allv = 0
+    CL = []   # clear_* clauses, emitted last
     for m in d["members"]:
         c = m["value"]
         if c is None:
@@ -263,11 +264,11 @@ def gen_flag_harness(item, d, hname):
         L.append('    assert!(F::new_%s().as_int() == %s, "C12:single-enumerator-constructor");' % (low, C))
         L.append("    {\n        let mut f = F::new(x);\n        let r = f.set_%s();" % low)
         L.append('        assert!(f.as_int() == (x | %s) && r.as_int() == (x | %s), "C12:set-adds-exactly-its-bits");\n    }' % (C, C))
-        L.append("    {\n        let mut f = F::new(x);\n        let r = f.clear_%s();" % low)
-        L.append("        let ok = f.as_int() == (x & !%s) && r.as_int() == (x & !%s);" % (C, C))
-        L.append("        // diagnostic, evaluated only where the obligation is violated: what the recorded finding (reverse_bits) computes")
-        L.append('        if !ok {\n            assert!(f.as_int() == (x & %s.reverse_bits()) && r.as_int() == f.as_int(), "KNOWNSIG[C12:clear-removes-exactly-its-bits]:not-the-recorded-reverse_bits-behaviour");\n        }' % C)
-        L.append('        assert!(ok, "C12:clear-removes-exactly-its-bits");\n    }')
+        CL.append("    {\n        let x: %s = kani::any();  // fresh value: a refuted clear_* clause must not restrict the inputs of later clauses\n        let mut f = F::new(x);\n        let r = f.clear_%s();" % (B, low))
+        CL.append("        let ok = f.as_int() == (x & !%s) && r.as_int() == (x & !%s);" % (C, C))
+        CL.append("        // diagnostic, evaluated only where the obligation is violated: what the recorded finding (reverse_bits) computes")
+        CL.append('        if !ok {\n            assert!(f.as_int() == (x & %s.reverse_bits()) && r.as_int() == f.as_int(), "KNOWNSIG[C12:clear-removes-exactly-its-bits]:not-the-recorded-reverse_bits-behaviour");\n        }' % C)
+        CL.append('        assert!(ok, "C12:clear-removes-exactly-its-bits");\n    }')
         fns += ["%s::%s_%s" % (F, k, low) for k in ("is", "new", "set", "clear")]
     # operators
     for op, tr, sym in (("bitand", "BitAnd", "&"), ("bitor", "BitOr", "|"), ("bitxor", "BitXor", "^")):
@@ -308,7 +309,8 @@ def gen_flag_harness(item, d, hname):
             L.append('                assert!(e == s, "C12:try_from-%s-error-returns-value");\n            }\n        }' % S)
             fns.append("<%s as TryFrom<%s>>::try_from" % (F, S))
         L.append("    }")
-    L.append('    kani::cover!(true, "C12:cover-end");')
+    L.append('    kani::cover!(true, "C12:cover-before-clear-clauses");')
+    L += CL
     L.append("}")
     return "\n".join(L) + "\n", fns
 
